@@ -412,7 +412,7 @@ def program_st(draw, **opts):
         labels = names(f"l{tag}", draw(st.integers(1, 5)))
         aconsts = names(f"v{tag}", draw(st.integers(0, 2))) if opts.get("const_addr") else []
         exp = []
-        if nfiles > 1 and opts.get("exports", True):
+        if nfiles > 1 and opts.get("exports", True) and (opts.get("exporter") is None or opts["exporter"] % nfiles == f):
             exp = [x for x in consts + labels if draw(st.integers(0, 2)) == 0]
         plan.append((tag, consts, labels, exp, aconsts))
     for f, (tag, consts, labels, exp, aconsts) in enumerate(plan):
